@@ -16,7 +16,7 @@ ID = "C23"
 LEVEL = "exploration"
 TIERS = {
   "quick": {"runs": 96, "chunk": 6, "budget_s": 420, "timeout_s": 300},
-  "thorough": {"runs": 1200, "chunk": 8, "budget_s": 3000, "timeout_s": 600},
+  "thorough": {"runs": 384, "chunk": 6, "budget_s": 1500, "timeout_s": 600},
 }
 RULE = ("one evaluation = the invariant checked on one world after one step; histories of 60-400 (quick) / up to 2000 (thorough) steps on "
         "generated models that contain free and ball joints, with seeded kicks of angular velocity up to 60 rad/s, timesteps in {2,5,10,20} ms, "
